@@ -117,7 +117,8 @@ func (g *GcsEmu) makeBucketListResults(ctx context.Context, baseUrl HttpBaseUrl,
 			// return our partial results + the cursor so that the client can retry from this point
 			g.log(nil, "failed to resolve: %s", item.filename)
 			break
-		} else {
+		} else if obj != nil {
+			// obj is nil when the object was deleted after the walk saw it
 			items = append(items, obj)
 		}
 	}
